@@ -90,8 +90,14 @@ type rec struct {
 	G, I      int
 	In, Out   any
 	Call, Ret int64
-	Res       string // what the operation touched: "k<key>", "o<object>" or "*" (whole structure)
+	Res       int // what the operation touched: resKey+key, resObj+object or resAll (whole structure)
 }
+
+const (
+	resAll = -1
+	resKey = 0
+	resObj = 100
+)
 
 // structure describes one container under test.
 type structure struct {
@@ -122,7 +128,7 @@ func spin(n int) {
 
 // runReps executes the program reps times, each time on a fresh object, with one
 // real goroutine per program goroutine. The goroutines live for all repetitions
-// and meet at a (briefly spinning, then blocking) barrier before every repetition, so the repetitions
+// and meet at a briefly spinning (every 8th repetition: then blocking) barrier before every repetition, so the repetitions
 // start aligned and cost microseconds (spawning goroutines per repetition costs
 // a thread wake-up each, which limits the number of schedules that can be
 // sampled). The drawn yields and spins then shift the operations against each
@@ -148,10 +154,14 @@ func runReps(p program, st *structure, reps int) [][]rec {
 	for r := range out {
 		out[r] = make([][]rec, n)
 	}
-	var arrived atomic.Int64 // barrier: repetition r starts when (r+1)*n arrivals have been counted
-	gates := make([]chan struct{}, reps)
-	for r := range gates {
-		gates[r] = make(chan struct{})
+	const syncEvery = 8
+	arrivals := make([]struct {
+		v atomic.Int32
+		_ [60]byte // one cache line per counter
+	}, reps)
+	gates := make([]chan struct{}, (reps+syncEvery-1)/syncEvery)
+	for i := range gates {
+		gates[i] = make(chan struct{})
 	}
 	var wg sync.WaitGroup
 	for g := range p.G {
@@ -163,19 +173,25 @@ func runReps(p program, st *structure, reps int) [][]rec {
 				do := execs[r][g]
 				clock := &clocks[r]
 				recs := make([]rec, 0, len(ops))
-				// barrier: the last arriver opens the gate; the others spin briefly (on an idle
-				// machine everybody arrives within a microsecond and the repetition starts aligned)
-				// and then block, which hands the processor back when the machine is oversubscribed
-				target := int64(r+1) * int64(n)
-				if arrived.Add(1) == target {
-					close(gates[r])
+				// Barrier. The last arriver opens the gate; the others spin briefly: on an idle
+				// machine everybody arrives within a microsecond and the repetition starts aligned.
+				// If the spin runs out (busy machine: some thread is not on a processor), every
+				// syncEvery-th repetition blocks on the gate - handing the processor back and
+				// re-aligning everybody - and the others just proceed unaligned (their object and
+				// clock are their own, so running ahead is harmless; the history is simply less
+				// likely to overlap). A thread wake-up costs ~100 microseconds, a repetition ~5.
+				cnt := &arrivals[r].v
+				if cnt.Add(1) == int32(n) {
+					if r%syncEvery == 0 {
+						close(gates[r/syncEvery])
+					}
 				} else {
 					open := false
 					for i := 0; i < 400 && !open; i++ {
-						open = arrived.Load() >= target
+						open = cnt.Load() == int32(n)
 					}
-					if !open {
-						<-gates[r]
+					if !open && r%syncEvery == 0 {
+						<-gates[r/syncEvery]
 					}
 				}
 				for i, sp := range ops {
@@ -209,7 +225,7 @@ func runReps(p program, st *structure, reps int) [][]rec {
 // checkAll asks porcupine about every history (in parallel: the checks are
 // independent) and returns the index of the first non-linearizable one, or -1.
 func checkAll(st *structure, hist [][]rec) int {
-	workers := max(1, runtime.GOMAXPROCS(0)/vk.Shards())
+	workers := min(4, max(1, runtime.GOMAXPROCS(0)/vk.Shards()))
 	bad := make([]bool, len(hist))
 	var next atomic.Int64
 	var wg sync.WaitGroup
@@ -245,7 +261,7 @@ func overlapped(recs []rec) bool {
 			if a.G == b.G {
 				continue
 			}
-			if a.Call < b.Ret && b.Call < a.Ret && (a.Res == b.Res || a.Res == "*" || b.Res == "*") {
+			if a.Call < b.Ret && b.Call < a.Ret && (a.Res == b.Res || a.Res == resAll || b.Res == resAll) {
 				return true
 			}
 		}
